@@ -44,6 +44,8 @@ type Runner struct {
 type Run struct {
 	traceMu         sync.Mutex
 	Concurrent      bool   // some requests were sent concurrently: the recorded trace is not a serial order
+	Faulted         bool   // a storage fault fired inside some request: the protocol model (whole requests) does not replay it
+	WindowFault     bool   // ... between "pushed changes stored" and "client checkpoint stored" (finding P8)
 	Stale           []bool // client attached under an older epoch (a compaction happened since)
 	Compactions     int
 	ref             *RefReplica
@@ -676,6 +678,33 @@ func (r *Run) exec(ctx context.Context, idx int, st *Step) StepObs {
 			break
 		}
 		r.Trace[len(r.Trace)-1].Lost = true
+		rp.Lost = f
+	case "Sx": // a storage call fails while the server handles this sync; the client gets an error and retries later (Rt)
+		if !attached || rp.Inflight != nil || rp.Lost != nil || r.Stale[st.C] {
+			obs.Skipped = true
+			return obs
+		}
+		r.S.Be.WaitBackgroundIdleForVerif()
+		fdb := r.S.InstallFaultDB()
+		fdb.Arm(st.FaultN, st.FaultAfter)
+		f := rp.A.SyncBegin(ctx, false)
+		r.S.Be.WaitBackgroundIdleForVerif()
+		if ft := fdb.Disarm(); ft != nil {
+			obs.Fault = ft.Call + map[bool]string{false: "/before", true: "/after"}[ft.After]
+			r.Faulted = true
+			if ft.Window {
+				obs.Fault += "/window"
+				r.WindowFault = true
+			}
+		}
+		if f.Req == nil {
+			err = f.Err
+			break
+		}
+		// with or without a fault the client has no response it acts on: it will retry the identical request
+		if len(r.Trace) > 0 {
+			r.Trace[len(r.Trace)-1].Lost = true
+		}
 		rp.Lost = f
 	case "Rt": // retry of the identical request, response applied
 		if rp.Lost == nil || !attached {
